@@ -57,7 +57,9 @@ def _rates(draw, big):
     # second assignment replaces the first)
     return {"kind": "rates", "spec": spec, "cutoff_in_cortimes": cut,
             "shared_after": draw(st.sampled_from([None, None, "td_rates", "rates"])),
-            "reassign": draw(st.sampled_from([None, None, 0, 1]))}
+            "reassign": draw(st.sampled_from([None, None, 0, 1])),
+            # the caller computes rates and tensors while other energy units are current
+            "calc_units": draw(st.sampled_from([None, None, "1/cm", "eV", "THz"]))}
 
 
 @st.composite
@@ -127,6 +129,18 @@ def _check_rates(case, ctx):
 
     # ---- Redfield rate matrix ---------------------------------------------------------------
     shared = {}
+    cu = case.get("calc_units")
+    if cu:
+        ctx.label("calculated-in-units:" + cu)
+
+    def in_units(fn):
+        """fn called the way the case's caller does: while other energy units are current, or not"""
+        if not cu:
+            return fn
+        def wrapped(*a, **kw):
+            with qr.energy_units(cu):
+                return fn(*a, **kw)
+        return wrapped
 
     def the_aggregate():
         """a fresh aggregate per use, or one shared aggregate with a history"""
@@ -143,7 +157,7 @@ def _check_rates(case, ctx):
             shared["agg"] = agg
         return shared["agg"]
     ctx.label("objects:" + (("shared-after-" + case["shared_after"]) if case.get("shared_after") else "fresh"))
-    ok, RR = guarded(ctx, "redfield-rates", lambda: numpy.array(the_aggregate().get_RedfieldRateMatrix().data))
+    ok, RR = guarded(ctx, "redfield-rates", in_units(lambda: numpy.array(the_aggregate().get_RedfieldRateMatrix().data)))
     if ok:
         if RR.shape != (n + 1, n + 1):
             ctx.fail("redfield-rates/shape", got=list(RR.shape))
@@ -168,6 +182,18 @@ def _check_rates(case, ctx):
                                           w_cm=round((ev[b] - ev[a]) / orc.CM2INT, 1), N=n)
                             elif g > 1e-7:
                                 ctx.label("golden-rule:outside-error-model-window")
+
+    # ---- time-dependent Redfield rates: the same numbers whatever units are current for the caller ------------
+    if cu and case.get("shared_after") == "td_rates":
+        def td_rates():
+            from quantarhei.qm import TDRedfieldRateMatrix
+            agg = gens.make_aggregate(qr, spec)
+            return numpy.array(TDRedfieldRateMatrix(agg.get_Hamiltonian(), agg.get_SystemBathInteraction()).data)
+        ok1, K1 = guarded(ctx, "td-redfield-rates", td_rates, "internal-units")
+        ok2, K2 = guarded(ctx, "td-redfield-rates", in_units(td_rates), "in-units")
+        if ok1 and ok2:
+            ctx.close("td-redfield-rates/same-in-any-units-context", K2, K1, rtol=1e-9,
+                      scale=max(1e-300, float(numpy.max(numpy.abs(K1)))), units=cu)
 
     # ---- Redfield tensor, population elements in the exciton basis ----------------------------------
     def tensor():
@@ -207,7 +233,7 @@ def _check_rates(case, ctx):
                         ctx.bound("golden-rule/tensor-with-cutoff", abs(float(numpy.real(Rc[a + 1, a + 1, b + 1, b + 1])) / g - 1.0),
                                   allowed + 0.03, T=T, w_cm=round((ev[b] - ev[a]) / orc.CM2INT, 1), N=n, dt=dtt)
     if resolved:
-        ok, R = guarded(ctx, "redfield-tensor", tensor)
+        ok, R = guarded(ctx, "redfield-tensor", in_units(tensor))
         if ok:
             for a in range(n):
                 for b in range(a + 1, n):
@@ -244,7 +270,7 @@ def _check_rates(case, ctx):
             ham = qr.Hamiltonian(data=gens.site_hamiltonian_int(spec).copy())
         ctx.label("foerster:bath-reassigned")
         return numpy.array(FoersterRateMatrix(ham, sbi).data)
-    ok, KF = guarded(ctx, "foerster-rates", foerster)
+    ok, KF = guarded(ctx, "foerster-rates", in_units(foerster))
     if ok:
         sc = max(1e-12, float(numpy.max(numpy.abs(KF))))
         ctx.close("foerster-rates/column-sums", numpy.sum(KF, axis=0), numpy.zeros(n + 1), rtol=0, atol=1e-9 * sc)
